@@ -24,7 +24,7 @@ var IntFollowers = []string{"", " ", ",", "]", "}", ".", ".5", "e", "e5", "E5", 
 
 var IntPrefixes = []string{"", " ", "\n\t"}
 
-var IntShapes = []string{"-", "- 1", "-\n1", "+1", "01", "-01", "00", "-0", "-00", "0", "0.0", "0e0", "1.0", "1e0", "", " ", "a", "-a", "\"1\"", "null", "true", "[1]",
+var IntShapes = []string{"-\r1", "-\r\n17", "- \r1", "-\r", "-\t\r1", "-", "- 1", "-\n1", "+1", "01", "-01", "00", "-0", "-00", "0", "0.0", "0e0", "1.0", "1e0", "", " ", "a", "-a", "\"1\"", "null", "true", "[1]",
 	"1 2", "0x1", "0 ", "-0 ", "-0.0", "-0e1", "1_000", "--1", "-+1", "1-", "1+", "\xd9\xa1", "0b1", "1,2", "-\t1", "- ", "-x", ".1", "-.1", "1.", "-1.", "1e", "1E+", "+0", "+", "\xd9\xa3", "\xef\xbc\x91"}
 
 // W6Ints emits integer literals: every value within +-window of each center x prefixes x
@@ -376,6 +376,27 @@ func W6Generic(nfloats int, allSpellings bool, seed int64, sink Sink, keep ...fu
 			emit(md + strings.Repeat("0", pad+1) + "e" + strconv.Itoa(mx-pad-1))
 			// just below: midpoint-1ulp-of-decimal followed by 9s beyond 800 digits
 			emit(decDigits(md) + strings.Repeat("9", pad+1) + "e" + strconv.Itoa(mx-pad-1))
+			// the same three shapes with a total of exactly 798..802 significant digits: the slow path
+			// keeps 800 digits, so the final sticky digit sits just inside / exactly at / just outside
+			// the buffer (seeded change C04r2-m1 lost the truncation flag only for exactly 800)
+			if len(md) < 790 {
+				for total := 798; total <= 802; total++ {
+					z := total - len(md) - 1
+					emit(md + strings.Repeat("0", z) + "1" + "e" + strconv.Itoa(mx-z-1))
+					if total%2 == 0 {
+						emit(decDigits(md) + strings.Repeat("9", z+1) + "e" + strconv.Itoa(mx-z-1))
+					}
+					// written with a decimal point after a few digits instead of an exponent shift
+					k := 1 + r.Intn(len(md))
+					emit(md[:k] + "." + md[k:] + strings.Repeat("0", z) + "1" + "e" + strconv.Itoa(mx+len(md)-k))
+				}
+			}
+			// an integer part of more than 800 digits FOLLOWED BY a fraction (the decimal point is met
+			// after digits were already dropped; seeded change C04r2-m2)
+			emit(md + strings.Repeat("0", pad) + ".1" + "e" + strconv.Itoa(mx-pad))
+			emit(md + strings.Repeat("0", pad) + ".0" + "e" + strconv.Itoa(mx-pad))
+			emit(decDigits(md) + strings.Repeat("9", pad) + ".9" + "e" + strconv.Itoa(mx-pad))
+			emit("1" + strings.Repeat("0", 800+r.Intn(60)) + ".5e-" + strconv.Itoa(1100+r.Intn(40)))
 		}
 	}
 }
